@@ -210,12 +210,71 @@ theorem SOK.setBoard {b0 : Board} {D : Nat} {s : St} (h : SOK b0 D s) (b : Board
 theorem SOK.mono {b0 : Board} {D D' : Nat} {s : St} (h : SOK b0 D s) (hle : D ≤ D') : SOK b0 D' s :=
   ⟨ttok_mono h.tt hle, h.hist, h.stop, h.sm⟩
 
-/-! ## small facts about the model -/
+
+/-! ## no interruption: either no flag poll happens, or a poll finds nothing -/
+
+/-- no message is waiting and no move time is set: a flag poll only emits its periodic info line -/
+def Calm (s : St) : Prop := s.pending = [] ∧ s.go.moveTime = none
+
+/-- a search from `s` that returns the node counter `n` is not interrupted: the counter stays below the poll period
+(`NoPoll`), or polls find nothing (`Calm`) -/
+def NoIntr (s : St) (n : Nat) : Prop := n < s.pollPeriod ∨ Calm s
+
+theorem Calm.setBoard {s : St} (h : Calm s) (b : Board) : Calm { s with board := b } := h
+
+theorem checkMessages_of_calm {s : St} (h : s.pending = []) : checkMessages s = s := by
+  rw [checkMessages_def, h]
+  show ({ s with pending := [] } : St) = s
+  rw [← h]
+
+theorem pollStep_of_calm {s : St} (h : s.pending = []) :
+    pollStep s = s ∨ pollStep s = s.emit (.info none (some (s.elapsedNs / 1000000)) s.totalNodes none none) := by
+  unfold pollStep
+  split
+  · right; rw [checkMessages_of_calm h]
+  · left; rfl
+
+theorem calm_pollStep {s : St} (h : Calm s) : Calm (pollStep s) := by
+  rcases pollStep_of_calm h.1 with e | e <;> rw [e] <;> exact h
+
+theorem timedOut_of_calm {s : St} (h : Calm s) : timedOut s = false := by
+  unfold timedOut
+  rw [(calm_pollStep h).2, Bool.and_false]
+
+theorem enterShape_of_calm {s : St} (h : Calm s) (hash : UInt64) : EnterShape s hash := by
+  unfold EnterShape enter
+  rcases pollStep_of_calm h.1 with e | e <;> rw [e]
+  · exact ⟨s.out, rfl⟩
+  · exact ⟨_, rfl⟩
+
+/-- `Calm` is kept by every step of the search -/
+theorem calm_stepRel (D : Nat) : StepRel D (fun s s' => Calm s → Calm s') where
+  refl := fun _ h => h
+  trans := fun h1 h2 h => h2 (h1 h)
+  board := fun _ _ h => h
+  poll := fun _ h => calm_pollStep h
+  stop := fun _ h => h
+  node := fun _ h => h
+  hist := fun _ _ h => h
+  qnode := fun _ h => h
+  killers := fun _ _ h => h
+  tt := fun _ _ _ _ h => h
 
 theorem pollFlag_false_of_lt' {s : St} (h : s.negamaxNodes < s.pollPeriod) : pollFlag s = false := by
   by_cases h0 : s.negamaxNodes = 0
   · exact pollFlag_false_of_zero h0
   · exact pollFlag_false_of_lt (by omega) h
+
+/-- the entry phase of a node of an uninterrupted search -/
+theorem enter_of_noIntr {s : St} {n : Nat} (h : NoIntr s n) (hn : s.negamaxNodes ≤ n) (hash : UInt64) :
+    timedOut s = false ∧ EnterShape s hash := by
+  rcases h with h | h
+  · have hf := pollFlag_false_of_lt' (Nat.lt_of_le_of_lt hn h)
+    exact ⟨timedOut_of_noFlag hf, enterShape_of_noFlag hf hash⟩
+  · exact ⟨timedOut_of_calm h, enterShape_of_calm h hash⟩
+
+/-! ## small facts about the model -/
+
 
 theorem rootBuffer_nil_sm {s : St} (h : s.go.searchMoves = []) (ply : Nat) : rootBuffer s ply = genPseudo s.board := by
   unfold rootBuffer
